@@ -177,7 +177,7 @@ class Cat:
                 self.types[f[1]] = {'name': f[1], 'kind': kv['kind'], 'rkind': kv['rkind'], 'size': int(kv['size']), 'layout': kv['layout'],
                                     'impl': set() if kv['impl'] == '-' else set(kv['impl'].split(',')),
                                     'assign': set() if kv['assign'] == '-' else set(kv['assign'].split(',')),
-                                    'funcs': kv['funcs'] == 'true', 'term': term, 'ty': ty, 'gostr': kv['go']}
+                                    'funcs': kv['funcs'] == 'true', 'term': term, 'ty': ty, 'gostr': kv['go'], 'direct': kv.get('direct') == 'true'}
             elif ln.startswith('multi '):
                 f = ln.split()
                 self.multis.append((f[1], f[2].split(',')))
@@ -681,6 +681,16 @@ def classify(cat, out, sup):
     return None
 
 
+def cross_rep(cat, sup, out):
+    """Props/C09.lean `CrossRep` on catalogue facts (from reflection): the supplied value is accepted and retyped although its
+    kind or its representation class (pointer-shaped vs indirect) differs from the declared type's — the model's `unmodelled`."""
+    if sup is None or sup == out:
+        return False
+    s, o = cat.types[sup], cat.types[out]
+    return (o['kind'] in ('strct', 'ptr') and s['size'] == o['size'] and 'IContext' not in o['gostr']
+            and (s['kind'] != o['kind'] or s['direct'] != o['direct']))
+
+
 def judge_call(cat, lane, outs, boxes, obs, facts):
     """The property on one configured stub + one call: `boxes` supplied where `outs` is declared, `obs` observed."""
     f = obs.split()
@@ -747,6 +757,11 @@ def oracle(cat, op, obs, facts):
                 return 'I2V accepted a wrong number of values'
         return None
     outs, boxes = p['outs'], p['boxes']
+    if lane in ('c09.tv', 'c09.ret', 'c09.eval', 'c09.matches') and len(outs) == 1 and len(boxes) == 1:
+        inside = cross_rep(cat, boxes[0], outs[0])
+        if inside != ('unmodelled' in obs):
+            return (f'boundary of the model: ({boxes[0]} -> {outs[0]}) is {"inside" if inside else "outside"} the CrossRep predicate '
+                    f'but the implementation-side observation is `{obs}`')
     if lane in ('c09.tv', 'c09.when'):
         want = classify(cat, outs[0], boxes[0])
         delivered = obs.startswith('ok')
@@ -868,6 +883,24 @@ def run(tier):
             for o, b in zip(p['outs'], p['boxes']):
                 w = classify(cat, o, b) or 'unstated'
                 demand[w] = demand.get(w, 0) + 1
+    crossrep = {'ops_with_a_pair_inside_CrossRep': 0, 'pairs_inside_CrossRep': 0, 'pairs_total': 0,
+                'impl_observations_unmodelled': sum(1 for x in impl if x and 'unmodelled' in x),
+                'model_observations_unmodelled': sum(1 for x in (model or []) if x and 'unmodelled' in x), 'distinct_type_pairs_inside': set()}
+    for op in ops:
+        p = parse_op(cat, op)
+        groups = p.get('groups') or [p['boxes']]
+        if p['lane'] == 'c09.i2v':
+            continue        # conversion only, nothing is called or read back
+        hit = False
+        for g in groups:
+            for o, b in zip(p['outs'], g):
+                crossrep['pairs_total'] += 1
+                if cross_rep(cat, b, o):
+                    crossrep['pairs_inside_CrossRep'] += 1
+                    crossrep['distinct_type_pairs_inside'].add((b, o))
+                    hit = True
+        crossrep['ops_with_a_pair_inside_CrossRep'] += hit
+    crossrep['distinct_type_pairs_inside'] = len(crossrep['distinct_type_pairs_inside'])
     nontrivial = len({(op.split(' ;; ')[0]) for i, op in enumerate(ops)
                       if impl[i] and (impl[i].startswith(('ok', 'got', 'eval ', 'true', 'false', 'callpanic:assign | got')) and not impl[i].startswith('eval panic'))})
     pick = [i for i in (0, len(ops) // 5, len(ops) // 2, (4 * len(ops)) // 5, len(ops) - 1) if 0 <= i < len(ops)]
@@ -885,7 +918,7 @@ def run(tier):
         'rule': 'one evaluation = one operation line (declared type(s) x supplied value(s)) run through the real goom code and the model; '
                 'non-trivial = distinct lines on which the implementation accepted/delivered a value (or answered isZero)',
         'distribution': {'declared_types': len(cat.names), 'lanes': dist, 'impl_outcome_classes': dict(sorted(classes.items())),
-                         'property_demand_classes': demand, 'kind_lists_today': extract_kind_lists()[0], 'gen_modules_changed_this_run': changed},
+                         'property_demand_classes': demand, 'unmodelled_boundary': crossrep, 'kind_lists_today': extract_kind_lists()[0], 'gen_modules_changed_this_run': changed},
         'samples': [{'op': ops[i].split(' ;; ')[0], 'impl': impl[i], 'facts': facts[i], 'model': model[i] if model else None} for i in pick],
     }
     out.assumptions = ['Go memory layout: identical field layout means identical meaning of the bytes', 'reflect behaves as described in Model/Convert.lean (checked by the differential run)',
